@@ -3,7 +3,7 @@ import re
 from . import core, conn, hist, hs
 
 RULE = ("random histories (length up to 60 in the thorough tier) over {DialV2 ok / failing address, close of a dialled connection "
-        "(succeeding / failing), session open ok / wrong password / no supported suite (with and without discovery), in-session and "
+        "(succeeding / failing), session open ok / wrong password / no supported suite (with and without discovery) / failing at a later exchange (non-OK status in each handshake reply, damaged or short RAKP 4 ICV), in-session and "
         "session-less commands with retry scripts over the full outcome alphabet incl. non-normal codes with truncated bodies, "
         "Close Session ok / failing}, and histories with a real 50 ms back-off in which a context without deadline is cancelled "
         "during a pause or a deadline falls into one; after every step the deltas of all bmc_* metrics (prometheus DefaultGatherer) are compared with "
@@ -65,7 +65,7 @@ def gen_history(ch, n):
         elif r < 0.13 and dials:
             steps.append({"op": "closedial", "script": [rng.choice(["ok", "ok", "fail"])]}); dials -= 1
         elif r < 0.25:
-            kind = rng.choice(["ok", "ok", "wrongpw", "nosuite", "discovery", "newsession", "newsession-wrongpw"])
+            kind = rng.choice(["ok", "ok", "wrongpw", "nosuite", "discovery", "newsession", "newsession-wrongpw", "latefail", "latefail"])
             if kind.startswith("newsession"):
                 # the version-agnostic entry point (default suites with discovery; succeeds when the BMC offers suite 17 or 3's
                 # algorithms, fails otherwise): accounted exactly like NewV2Session
@@ -73,6 +73,13 @@ def gen_history(ch, n):
                 have_session = have_session or (kind == "newsession" and tuple(su) in ((1, 1, 1), (3, 4, 1)))
             elif kind == "ok":
                 steps.append(hs.open_step(suites=[su])); have_session = True
+            elif kind == "latefail":
+                # the handshake fails at a later exchange: non-OK status in the Open Session Response / RAKP 2 / RAKP 4, a
+                # damaged or short RAKP 4 integrity check value - after RAKP 3 the BMC considers the session open, the
+                # console does not: an open that failed is a failure, whatever tidying up follows it
+                steps.append(hs.open_step(suites=[su], script=rng.choice([["setbytes:17=%d" % rng.choice([1, 2, 17, 18])], ["ok", "setbytes:17=%d" % rng.choice([2, 13, 14])],
+                                                                         ["ok", "ok", "flip:%d" % rng.randrange(192, 192 + 96)], ["ok", "ok", "setbytes:17=15"],
+                                                                         ["ok", "ok", "truncpayload:%d" % rng.choice([9, 12, 16, 19])]])))
             elif kind == "wrongpw":
                 steps.append(hs.open_step(password=b"nope", suites=[su]))
             elif kind == "nosuite":
